@@ -10,10 +10,13 @@ Definition to_pairs (x : sx) : list (Z * Z) := map (fun e => (to_Z (nthx 0 e), t
 
 Definition to_cfg (x : sx) : cfg :=
   mkcfg (to_Zs (nthx 0 x)) (to_kw (nthx 1 x)) (to_kw (nthx 2 x)) (to_bool (nthx 3 x)) (to_optZ (nthx 4 x))
-        (* optional 6th element [status_needs_worker; cb_keyword_kept]; absent = the code as it is now *)
-        (mkcode (to_bool (nthx 0 (nthx 5 x))) (to_bool (nthx 1 (nthx 5 x)))).
+        (* optional 6th element [status_needs_worker; cb_keyword_kept; escapes_unhandled]; absent = the code as it is now *)
+        (mkcode (to_bool (nthx 0 (nthx 5 x))) (to_bool (nthx 1 (nthx 5 x))) (to_bool (nthx 2 (nthx 5 x)))).
 Definition to_outcome (x : sx) : outcome :=
-  match to_Z (nthx 0 x) with 0 => ORet | 1 => ORaise (to_Z (nthx 1 x)) (to_Z (nthx 2 x)) | _ => OEscape end.
+  match to_Z (nthx 0 x) with
+  | 0 => ORet | 1 => ORaise (to_Z (nthx 1 x)) (to_Z (nthx 2 x))
+  | _ => OEscape (to_Z (nthx 1 x)) (to_Z (nthx 2 x)) (to_bool (nthx 3 x))
+  end.
 Definition to_prog (x : sx) : prog :=
   mkprog (to_pairs (nthx 0 x)) (to_outcome (nthx 1 x)) (to_bool (nthx 2 x)) (to_Z (nthx 3 x)) (to_Z (nthx 4 x)) (to_Z (nthx 5 x))
          (map (fun e => (to_Z (nthx 0 e), to_kw (nthx 1 e))) (to_list (nthx 6 x))).
@@ -30,7 +33,7 @@ Definition to_ev (x : sx) : ev :=
 Definition of_rstatus (s : rstatus) : sx :=
   I (match s with Waiting => 0 | Running => 1 | Success => 2 | Error => 3 | Canceled => 4 end).
 Definition of_smsg (m : smsg) : sx :=
-  match m with MNone => L [] | MCancel => L [I 1] | MErr t x => L [I 2; I t; I x] end.
+  match m with MNone => L [] | MCancel => L [I 1] | MErr t x => L [I 2; I t; I x] | MThreadDied => L [I 3] end.
 Definition of_entry (e : entry) : sx := L [I (epay e); of_kw (eiter e); of_nat_sx (enconv e); of_kw (ecargs e)].
 Definition of_res (r : res) : sx :=
   L [I (shape r); I (payload r); of_kw (rargs r); of_nat_sx (nconv r); of_kw (cargs r); L (map of_entry (entries r))].
@@ -68,7 +71,7 @@ Definition of_st (s : st) : sx :=
    tag 0 = the worker's next step, followed by the wrapper's finish (and execute_sync's final get_results) when
    that step was the task's return/raise; tag 4 = execute, followed by the worker's start step when accepted.
    Tag 6 = one fine-grained worker step. Each macro event reports the observations of the fine steps it expands to. *)
-Definition closing (p : pcs) : bool := match p with PRet | PExc _ _ | PSyncRet => true | _ => false end.
+Definition closing (p : pcs) : bool := match p with PRet | PExc _ _ _ | PSyncRet => true | _ => false end.
 Fixpoint wk_close (c : cfg) (pr : prog) (n : nat) (s : st) : st * list obs :=
   match n with
   | O => (s, [])
